@@ -108,6 +108,7 @@ fn run_files(files: &[(String, String)], entry: &str, api: &[(String, String)]) 
 }
 
 pub fn run_line(line: &str) -> String {
+    if line.trim_start().starts_with("I ") { return crate::c11::run_line(line); }
     let c = match parse_case(line) { Some(c) => c, None => return "BAD-CASE".into() };
     let files: Vec<(String, String)> = c.files.iter().map(|(n, its)| (n.clone(), render(its))).collect();
     let api: Vec<(String, String)> = c.api.iter().map(|(n, v)| (n.clone(), spell(v))).collect();
@@ -335,6 +336,8 @@ pub fn program_line(seed: u64) -> String {
 pub fn gen_cases(seed: u64, n: usize, _thorough: bool) -> Vec<String> {
     let mut rng = Rng::new(seed);
     let mut out: Vec<String> = Vec::new();
+    // #include / #pragma once in selected and unselected groups (the probes of C11)
+    for k in 0..10 { out.push(format!("I {}", k)); }
     // hand-written shapes: rescanning, trailing function-like names, recursion, paste, argument splitting
     for s in [
         "F m ; D ~ f(p) ~ p ; D ~ a ~ f(a) ; T a $",
